@@ -1,5 +1,6 @@
 import ServlinVerif.Driver.C14
 import ServlinVerif.Driver.C20
+import ServlinVerif.Driver.C15
 import ServlinVerif.Driver.C06
 import ServlinVerif.Driver.Req
 import ServlinVerif.Driver.C07
@@ -33,11 +34,14 @@ def handleLine (line : String) : String :=
     | "c14a" => viaSpec (C14.handleAscii args) obs
     | "c14n" => viaSpec (C14.handleNum args) obs
     | "c01" => Req.handleC01 args obs
+    | "c01s" => Req.handleSeq args obs
     | "c02" => Req.handleC02 args obs
     | "c03" => Req.handleC03 args obs
     | "c06" => C06.handleC06 args obs
     | "c08" => C06.handleC08 args obs
     | "c07" => C07.handle args obs
+    | "c15r" => C15.handleReq args obs
+    | "c15s" => C15.handleSet args obs
     | "c16n" => C16.handleNew args obs
     | "c16a" => C16.handleAdd args obs
     | "c20e" => C20.handleError args obs
